@@ -113,3 +113,16 @@ macro_rules! vk_proof {
 pub fn vk_fixed_random_state() -> std::hash::RandomState {
     unsafe { std::mem::transmute::<(u64, u64), std::hash::RandomState>((1u64, 2u64)) }
 }
+
+/// R2: formatting is not the subject (stub target for core::fmt::write).
+#[cfg(kani)]
+#[allow(dead_code)]
+pub fn vk_fmt_write(_out: &mut dyn core::fmt::Write, _args: core::fmt::Arguments<'_>) -> core::fmt::Result {
+    Ok(())
+}
+/// R2: stub target for alloc::fmt::format / std::fmt::format.
+#[cfg(kani)]
+#[allow(dead_code)]
+pub fn vk_fmt_format(_args: core::fmt::Arguments<'_>) -> String {
+    String::new()
+}
